@@ -30,9 +30,9 @@ try:
     if a.configs:
         env["VERIF_CONFIGS"] = a.configs
 
-    def run_check():
+    def run_check(prop=None):
         t0 = time.time()
-        p = subprocess.run([os.path.join(VERIF, "check"), a.prop, "--tier", a.tier, "--seed", a.seed], env=env, stdout=subprocess.PIPE, stderr=subprocess.STDOUT)
+        p = subprocess.run([os.path.join(VERIF, "check"), prop or a.prop, "--tier", a.tier, "--seed", a.seed], env=env, stdout=subprocess.PIPE, stderr=subprocess.STDOUT)
         out = p.stdout.decode("utf-8", "replace")
         keys = [l.strip()[4:].split(" ")[0] for l in out.splitlines() if l.startswith("  key=")]
         return p.returncode, keys, out, time.time() - t0
@@ -44,18 +44,21 @@ try:
         if rc != 0:
             print(out[-3000:])
     for patch in a.patches:
+        prop = a.prop
+        if "=" in patch:                 # PROP=path: run another property's check for this patch (shared scratch build)
+            prop, patch = patch.split("=", 1)
         patch = os.path.abspath(patch)
         r = subprocess.run(["git", "-C", wt, "apply", patch], stderr=subprocess.PIPE)
         if r.returncode != 0:
             print("SELFTEST PATCH-DOES-NOT-APPLY patch=%s: %s" % (os.path.basename(patch), r.stderr.decode()[:300]), flush=True)
             results.append(dict(patch=os.path.basename(patch), exit=None, keys=[], error="does not apply"))
             continue
-        rc, keys, out, dt = run_check()
+        rc, keys, out, dt = run_check(prop)
         detected = rc == 1 and keys
-        print("SELFTEST %s patch=%s property=%s exit=%d (%.0fs) keys=%s" % ("DETECTED" if detected else "MISSED", os.path.basename(patch), a.prop, rc, dt, keys[:8]), flush=True)
+        print("SELFTEST %s patch=%s property=%s exit=%d (%.0fs) keys=%s" % ("DETECTED" if detected else "MISSED", patch.replace(VERIF + "/", ""), prop, rc, dt, keys[:8]), flush=True)
         if not detected:
             print(out[-2500:], flush=True)
-        results.append(dict(patch=os.path.basename(patch), exit=rc, keys=keys, detected=bool(detected)))
+        results.append(dict(patch=patch.replace(VERIF + "/", ""), property=prop, exit=rc, keys=keys, detected=bool(detected)))
         subprocess.check_call(["git", "-C", wt, "checkout", "--", "."])
     if a.out:
         with open(a.out, "w") as f:
